@@ -108,6 +108,9 @@ func (m *frameMon) sig(db *state.StateDB) string {
 		b.WriteString(";")
 	}
 	fmt.Fprintf(&b, "logs=%d", len(db.Logs()))
+	// ... and what the state would be committed as: end-of-transaction clean-up deletes empty accounts that were
+	// touched, so a touch that survives a failed frame shows here (computed on a copy: the live state is not finalised)
+	fmt.Fprintf(&b, " committed-as=%x", db.Copy().IntermediateRoot(m.eip158).Bytes()[:8])
 	return b.String()
 }
 
@@ -548,7 +551,16 @@ func runC04(c Case, tier string) (res CaseResult) {
 		return
 	}
 	r := h.NewRNG(c.Seed)
-	sc := genScenario(r, scenOpts{FailPct: 25, ValuePct: 50})
+	sc := genScenario(r, scenOpts{FailPct: 25, ValuePct: 50, Extra: func(a *h.Asm, n *node, phase int) {
+		// zero-value calls that only TOUCH an account (allowed in static frames too): an existing empty account, a
+		// missing one, a precompile, a code-less one with a nonce
+		rr := h.NewRNG(h.Mix(c.Seed, uint64(n.ID), uint64(phase), 0x70c4))
+		if !rr.Chance(35) {
+			return
+		}
+		tgt := h.Pick(rr, []common.Address{h.EmptyAcct, h.Nobody, common.BytesToAddress([]byte{3}), h.EOAPoor, common.BytesToAddress([]byte{0xee, byte(n.ID)})})
+		a.PushU(0).PushU(0).PushU(0).PushU(0).PushU(0).PushAddr(tgt).PushU(2500).Op(h.CALL, h.POP)
+	}})
 	plan := bindPlan(r, sc, 40, []uint32{0, 10, 1000}, 0)
 	evals := int64(0)
 	// baseline
